@@ -1348,3 +1348,19 @@ def c03_regex(X, pattern, prefix, unit, suffix, reps=64):
 
 
 ORACLES.update({"c03_regex": c03_regex})
+
+
+# ------------------------------------------------------------------ C09 with f-string features (known f-string deviations are keyed by them)
+_c09_plain = O.c09
+
+
+def c09(X, src):
+    v = _c09_plain(X, src)
+    if v is not None and ("f'" in src.lower() or 'f"' in src.lower() or "f'''" in src.lower()):
+        feats = sorted(fstring_features(src))
+        if feats:
+            v["features"] = feats
+    return v
+
+
+ORACLES.update({"c09": c09})
